@@ -80,6 +80,8 @@ PROPS = {
             "title": "decoder totality"},
     "C11": {"suites": ["codec-enc", "codec-dec"], "monitor": True,
             "title": "codec round trip and wire layout"},
+    "C13": {"suites": ["wrecv", "srv"], "monitor": True, "title": "cleanup of failed uploads",
+            "assumptions": W_ASSUME + ["POSIX unlink/truncate semantics as modelled; write errors (disk full) are modelled, not induced"]},
     "C15": {"suites": ["wsend-long", "wrecv-long"], "monitor": True, "title": "block-number wrap-around", "assumptions": W_ASSUME},
     "C16": {"suites": ["wsend", "wrecv", "cfg", "srv"], "monitor": True, "title": "duplicate-packets mode", "assumptions": W_ASSUME},
     "C17": {"suites": ["cfg"], "monitor": True, "title": "command-line configuration",
